@@ -15,6 +15,64 @@ fn i(v: &Value, k: &str) -> i64 {
     v.get(k).and_then(|x| x.as_i64()).unwrap_or(0)
 }
 
+/// many threads building their injector through ONE shared helper (one fake!(.., times: 1) line): every lifetime
+/// makes exactly one call, so every scope exit must be silent, whatever the interleaving of the lifetimes
+fn run_helper(sc: &Value) {
+    panics::install_hook();
+    let threads = (i(sc, "threads") as usize).clamp(1, 16);
+    let rounds = i(sc, "rounds") as usize;
+    let site = (i(sc, "site") as usize) % pool::NSITES;
+    pool::SITE_N[site].store(1, SeqCst);
+    pool::SITE_FAKE[site].store(1, SeqCst);
+    let bar = Arc::new(Barrier::new(threads));
+    let mut hs = Vec::new();
+    for _ in 0..threads {
+        let bar = bar.clone();
+        hs.push(std::thread::spawn(move || {
+            bar.wait();
+            let mut bad = 0u64;
+            let mut first = String::new();
+            for _ in 0..rounds {
+                let r = catch_unwind(|| {
+                    let mut inj = InjectorPP::new();
+                    inj.when_called(injectorpp::func!(pool::tb1, fn(u32) -> bool)).will_execute(pool::counted_site(site));
+                    let f = std::hint::black_box(pool::tb1 as fn(u32) -> bool);
+                    let got = f(1);
+                    drop(inj);
+                    got
+                });
+                match r {
+                    Ok(true) => {}
+                    Ok(false) => {
+                        bad += 1;
+                        if first.is_empty() {
+                            first = "the call was answered by the original".into();
+                        }
+                    }
+                    Err(p) => {
+                        bad += 1;
+                        if first.is_empty() {
+                            first = panics::payload_str(&*p);
+                        }
+                    }
+                }
+            }
+            (bad, first)
+        }));
+    }
+    let mut failures = 0;
+    let mut first = String::new();
+    for h in hs {
+        if let Ok((b, f)) = h.join() {
+            failures += b;
+            if first.is_empty() {
+                first = f;
+            }
+        }
+    }
+    emit(json!({"ev":"Helper","threads":threads,"rounds":rounds,"failures":failures,"first":first}));
+}
+
 fn run_one(sc: &Value) {
     panics::install_hook();
     let n = i(sc, "n") as usize;
@@ -120,6 +178,10 @@ pub fn run(script: &str, out: &str) {
         }
         let sc: Value = serde_json::from_str(line).expect("scenario json");
         SCENARIO.store(i(&sc, "id") as u64, SeqCst);
-        child::run_logged(30, || run_one(&sc));
+        if sc.get("mode").and_then(|x| x.as_str()) == Some("helper") {
+            child::run_logged(120, || run_helper(&sc));
+        } else {
+            child::run_logged(30, || run_one(&sc));
+        }
     }
 }
